@@ -381,6 +381,7 @@ def run(rep, tier):
             rep.check(ok8, "R4.8", "pair-count|%s" % ("same-type" if same else "cross-type"), "norm_ = %s/(N1 N2)" % (2 if same else 1),
                       "Imc::BeginEvaluate: for %s bead types norm_ = %s (required %s/(N1 N2)): the distribution of an ideal gas is %s" % (
                           "equal" if same else "different", str(v_)[:120], 2 if same else 1, "1/2 or 2 instead of 1"), be.loc(run_[0]["node"]), sample=True)
+    check_bonded_values(rep, F)
     rep.assumptions += ["pair search completeness and exclusions are C03's subject; bin memory safety is C13's",
                         "M_PI literal compared numerically with pi (1e-12); all other factors exactly"]
     rep.trusted.append("sympy exact polynomial arithmetic")
@@ -394,3 +395,79 @@ def eq_whole(val):
         return is_zero(val - want)
     except Exception:
         return False
+
+
+def check_bonded_values(rep, F):
+    """R4.9: what csg_stat bins for a bonded interaction is Interaction::EvaluateVar - the bond length, the angle between the two bond vectors, the signed
+    angle between the two plane normals.  The folded value is evaluated with 50 digits at random rational geometries (unequal bond lengths, no right
+    angles) and compared with the geometric quantity computed here from the same coordinates."""
+    import random
+    import mpmath
+    from rules.C07 import NormAtoms, interaction_fold
+    from vsa.alg import vec_atoms
+    from sympy.core.function import AppliedUndef
+    rep.rule("R4.9", "bonded distributions bin the geometric quantity: IBond::EvaluateVar = |r01|, IAngle::EvaluateVar = angle(r10, r12) (any bond lengths), "
+                     "IDihedral::EvaluateVar = signed angle between the normals of the planes (0,1,2) and (1,2,3)")
+    Cq = "votca::csg::"
+    mpmath.mp.dps = 50
+
+    def geo(kind, P):
+        v = lambda a, b: [P[b][k] - P[a][k] for k in range(3)]
+        dot = lambda a, b: sum(x * y for x, y in zip(a, b))
+        cross = lambda a, b: [a[1] * b[2] - a[2] * b[1], a[2] * b[0] - a[0] * b[2], a[0] * b[1] - a[1] * b[0]]
+        nrm = lambda a: mpmath.sqrt(dot(a, a))
+        if kind == "IBond":
+            return nrm(v(0, 1))
+        if kind == "IAngle":
+            a, b = v(1, 0), v(1, 2)
+            return mpmath.acos(dot(a, b) / (nrm(a) * nrm(b)))
+        v1, v2, v3 = v(0, 1), v(1, 2), v(2, 3)
+        n1, n2 = cross(v1, v2), cross(v2, v3)
+        ang = mpmath.acos(dot(n1, n2) / (nrm(n1) * nrm(n2)))
+        return -ang if dot(v1, n2) < 0 else ang
+    for cls, nb in (("IBond", 2), ("IAngle", 3), ("IDihedral", 4)):
+        fs = F.find(Cq + cls + "::EvaluateVar")
+        if len(fs) != 1:
+            rep.broken("R4.9", "%s::EvaluateVar not found in the analysed units" % cls)
+            continue
+        fv = fs[0]
+        rep.analysed(fv)
+        NA = NormAtoms()
+        pos = [vec_atoms("p%d" % k) for k in range(nb)]
+        fo = interaction_fold(fv, NA, pos)
+        V = fo.returns[0][0]
+        conds = getattr(fo, "conds", {})
+        rnd = random.Random(rep.seed + 41)
+        bad = None
+        for _ in range(4):
+            sub, P = {}, []
+            for v_ in pos:
+                row = []
+                for c_ in v_:
+                    q_ = sp.Rational(rnd.randint(-4000, 4000), rnd.randint(1, 53))
+                    sub[c_] = q_
+                    row.append(mpmath.mpf(q_.p) / q_.q)
+                P.append(row)
+            e = V
+            for s_, q, _v in NA.atoms:
+                e = e.xreplace({s_: sp.sqrt(q)})
+            e = e.xreplace(sub)
+            for a_ in list(e.atoms(AppliedUndef)):
+                if str(a_.func) == "ite" and len(a_.args) == 3:
+                    c_ = conds.get(str(a_.args[0]))
+                    if isinstance(c_, tuple) and len(c_) == 3 and c_[0] in ("<", "<=", ">", ">="):
+                        l_, r_ = [sp.sympify(x_).xreplace(sub) if hasattr(x_, "xreplace") else sp.sympify(x_) for x_ in c_[1:]]
+                        t_ = {"<": l_ < r_, "<=": l_ <= r_, ">": l_ > r_, ">=": l_ >= r_}[c_[0]]
+                        if t_ in (sp.true, sp.false):
+                            e = e.xreplace({a_: a_.args[1] if t_ == sp.true else a_.args[2]})
+            if e.free_symbols or e.atoms(AppliedUndef):
+                raise AnalysisBroken("%s::EvaluateVar does not evaluate to a number at a sample geometry (%s)" % (cls, sorted(map(str, e.free_symbols))[:4]))
+            got = mpmath.mpf(str(sp.N(e, 50))) if not e.has(sp.I) else None
+            want = geo(cls, P)
+            if got is None or abs(got - want) > mpmath.mpf("1e-30"):
+                bad = "at a sample geometry with unequal bond lengths it returns %s, the %s is %s" % (
+                    mpmath.nstr(got, 12) if got is not None else "a complex number", {"IBond": "bond length", "IAngle": "angle", "IDihedral": "dihedral"}[cls], mpmath.nstr(want, 12))
+                break
+        rep.check(bad is None, "R4.9", "bonded-value|" + cls, "%s::EvaluateVar is the geometric %s at 4 random rational geometries (50 digits)" % (cls, {"IBond": "bond length", "IAngle": "angle", "IDihedral": "dihedral"}[cls]),
+                  "%s::EvaluateVar: %s; csg_stat bins this value, so the bonded distribution is not the histogram of the %s" % (cls, bad, {"IBond": "bond lengths", "IAngle": "angles", "IDihedral": "dihedrals"}[cls]),
+                  fv.loc(), sample=(cls == "IAngle"))
